@@ -160,8 +160,11 @@ def checkWrite (i : Nat) (st : OSt) (es : List Element) (bytes : List Byte) : OS
   let new := vt.log.drop before.log.length
   let st := { st with vt := vt, rendKnown := true }
   let c09 := if st.erased then s!" C09@{i} (text after an erase)" else ""
+  -- a write that has to designate / select a character set: what goes wrong there also concerns C18 (designators)
+  let c18 := if es.any (fun e => !(decide (CharsetAgree e.glyph.cs before))) || (es.zip (es.drop 1)).any (fun p => p.1.glyph.cs != p.2.glyph.cs)
+    then s!" C18@{i} (character-set change)" else ""
   let st := if new.map (·.2.2) = es.map cellOf then st
-    else st.fail s!"C01@{i} C17@{i}{c09} cells shown differ from the elements requested ({new.length} glyphs for {es.length} elements)"
+    else st.fail s!"C01@{i} C17@{i}{c09}{c18} cells shown differ from the elements requested ({new.length} glyphs for {es.length} elements)"
   let st := if new.flatMap (·.2.2.bytes) = es.flatMap (·.glyph.text) then st
     else st.fail s!"C17@{i} glyph bytes on the wire differ from to_string"
   if st.sized then checkPositions i vt.w st new else { st with exp := none }
